@@ -352,13 +352,21 @@ fn decode_edifact<'a>(
     Ok((data, EncodationType::Ascii))
 }
 
-fn decode_c40_tuple(a: u8, b: u8) -> (u8, u8, u8) {
-    let mut full = ((a as u16) << 8) + b as u16 - 1;
+fn decode_c40_tuple(a: u8, b: u8) -> Result<(u8, u8, u8), DataDecodingError> {
+    let mut full = ((a as u16) << 8) + b as u16;
+    if full == 0 {
+        // a packed triple is 1600 * c1 + 40 * c2 + c3 + 1, so never zero
+        return Err(DataDecodingError::UnexpectedCharacter(
+            "illegal c40/text/x12 codeword pair",
+            b,
+        ));
+    }
+    full -= 1;
     let tmp = full / 1600;
     let c1 = tmp as u8;
     full -= tmp * 1600;
     let tmp = full / 40;
-    (c1, tmp as u8, (full - tmp * 40) as u8)
+    Ok((c1, tmp as u8, (full - tmp * 40) as u8))
 }
 
 fn dec_x12_val(ch: u8) -> Result<u8, DataDecodingError> {
@@ -383,7 +391,7 @@ fn decode_x12<'a>(
             break;
         }
         let second = data.eat().unwrap();
-        let (c1, c2, c3) = decode_c40_tuple(first, second);
+        let (c1, c2, c3) = decode_c40_tuple(first, second)?;
 
         out.push(dec_x12_val(c1)?);
         out.push(dec_x12_val(c2)?);
@@ -417,7 +425,7 @@ fn decode_c40_like<'a>(
         if first == UNLATCH {
             break;
         }
-        let (c1, c2, c3) = decode_c40_tuple(first, data.eat().unwrap());
+        let (c1, c2, c3) = decode_c40_tuple(first, data.eat().unwrap())?;
         for ch in [c1, c2, c3].iter().copied() {
             if shift == 0 {
                 match ch {
